@@ -22,7 +22,7 @@ def _verdict(ctx):
     return bool(ctx.violations)
 
 
-def run(F, prop):
+def run(F, prop, Fnorm=None):
     from .rules import common as K
     from .rules import feas
     results = []          # (name, bad_fired, good_silent)
@@ -114,6 +114,37 @@ def run(F, prop):
         results.append(('schema', exp != bad_table, good))
     finally:
         import shutil; shutil.rmtree(d, ignore_errors=True)
+    # ---- the normal form itself (sa.normalize): loops written as iterator chains / code moved into a
+    # helper the rules do not know must get the same verdicts from the same templates
+    if Fnorm is not None:
+        def twin_n(name, fn):
+            out = []
+            for kind in ('bad', 'good'):
+                b = _fn(Fnorm, '%s_%s' % (name, kind))
+                if b is None:
+                    out.append(None); continue
+                ctx = _C(Fnorm)
+                try:
+                    fn(ctx, b)
+                except Exception:
+                    out.append(None); continue
+                out.append(_verdict(ctx))
+            results.append((name, out[0] is True, out[1] is False))
+
+        def n_loop(c, b):
+            los = T.for_loops(b)
+            c.check(bool(los), 'ctl/norm/loop-found', 'T-LOOPMUST', b.name, 'no loop')
+            for lo in los: K.loop_must(c, 'ctl/norm/loopmust', b, lo, lambda x: x.item == 'push', 'push')
+
+        def n_err(c, b):
+            calls = [x for x in b.calls if x.item == 'get']
+            c.check(bool(calls), 'ctl/norm/get-found', 'T-ERRFLOW', b.name, 'no lookup visible in the function')
+            K.errflow_calls(c, 'ctl/norm/errflow', b, calls, 'lookup')
+        twin_n('norm_loop', n_loop)
+        twin_n('norm_acc', acc)
+        twin_n('norm_tryfold', n_err)
+        twin_n('norm_helper', n_err)
+        twin_n('norm_collect', n_err)
     silent = [n for n, bad_fired, good_ok in results if not (bad_fired and good_ok)]
     return dict(fired=sum(1 for n, b_, g in results if b_), expected=len(results), good_silent=sum(1 for n, b_, g in results if g), silent=silent,
                 controls=[n for n, b_, g in results])
